@@ -404,7 +404,10 @@ theorem step_mono (s : St) (op : Op) : (step s op).foreign = false → s.foreign
     split
     · exact id
     · split
-      · rw [(fail_frame _ _).2.2.2]; exact id
+      · intro hf
+        have hf : (s.foreign || _) = false := hf
+        rw [Bool.or_eq_false_iff] at hf
+        exact hf.1
       · intro hf
         have hf : (s.foreign || _) = false := hf
         rw [Bool.or_eq_false_iff] at hf
@@ -435,13 +438,14 @@ theorem step_J (hwf : WF bs) (hq : InvQ ⟨P, base, (· = 0), [], Q, Q⟩ s) (h 
       | error e =>
         intro _
         obtain ⟨a, _⟩ := fail_frame s e
-        exact ⟨h.jd.fail _, by rw [a]; exact h.chain⟩
+        exact ⟨(h.jd.fail _).setForeign _, by show ∃ path, Chain bs (s.fail e).n path; rw [a]; exact h.chain⟩
       | ok s1 =>
         obtain ⟨h1, f1, _⟩ := openNode_J hwf h.jd.prov hq.disk s.n.bigs 0 ho
         simp only []
         split
         · intro _
-          exact ⟨h.jd.fail _, by rw [(fail_frame s _).1]; exact h.chain⟩
+          rename_i e0 _ _
+          exact ⟨(h.jd.fail e0).setForeign _, by show ∃ path, Chain bs (s.fail e0).n path; rw [(fail_frame s _).1]; exact h.chain⟩
         · rename_i s' heq
           split at heq
           · cases heq
